@@ -893,11 +893,12 @@ impl<'a, 'ast> Visit<'ast> for Cx<'a> {
             other => other,
         };
         if let Some(target) = hit {
-            // recv.method(args) => target(recv, args)
+            // recv.method(args) => target(recv, args); a target written `&f` takes the receiver by reference: f(&recv, args)
             let whole = m.span().byte_range();
             let recv = m.receiver.span().byte_range();
             let before = self.src[whole.clone()].to_string();
-            self.insert(recv.start, format!("{}(", target));
+            let (target, amp) = match target.strip_prefix('&') { Some(t) => (t.to_string(), "&"), None => (target.clone(), "") };
+            self.insert(recv.start, format!("{}({}", target, amp));
             let paren_open = m.paren_token.span.open().byte_range();
             let sep = if m.args.is_empty() { "" } else { ", " };
             self.replace(recv.end..paren_open.end, sep);
